@@ -474,6 +474,65 @@ example : runs cfgEx0 (St.init 0) [.cycle goneEv, .tick 320, .cycle { goneEv wit
     runs cfgEx0 (St.init 0) [.cycle goneEv, .tick 320, .cycle { goneEv with deleted := true }, .kBegin .deleted, .tick 65] = none :=
   ⟨by decide, ⟨_, _, rfl, by decide, rfl, by decide, by decide, by decide⟩, by decide⟩
 
+/-! ## what the cycles do NOT do once the object matches again (findings F14, F15: open)
+
+  The staged termination after a filter mismatch lives in `match_daemons`, which visits the daemons that do NOT
+  match in the CURRENT cycle. The stop flag cannot be taken back; but when the object matches again while the flagged
+  instance is still running, no cycle visits it any more. -/
+
+/-- F14, for EVERY state with a running instance (flagged or not, in whatever stage), every configuration: a cycle of
+    an unmarked, matching object while the operator is neither paused nor the event a DELETED one changes NOTHING and
+    returns NO delay: the flagged instance is not signalled, cancelled or abandoned, nothing is spawned (its id is
+    taken), and no further cycle is scheduled. -/
+theorem rematched_not_escalated (c : Cfg) (s : St) (i : Inst) (inp : CycIn) (hi : s.run = some i) (hf : s.forever = false)
+    (hm : inp.matching = true) (hmk : inp.marked = false) (hp : inp.paused = false) (hd : inp.deleted = false) :
+    cycle c inp s = (s, []) := by
+  simp [cycle, stopIf, hi, hf, hm, hmk, hp, hd]
+
+/-- only a processing cycle creates an instance: nothing else (time, the killer, the instance ending) makes up for a
+    start that was skipped because the previous instance was still there (F15) -/
+theorem only_cycles_spawn (c : Cfg) (s s' : St) (l : Label) (hl : ∀ inp, l ≠ .cycle inp) (hs : step c s l = some s') :
+    s'.spawns = s.spawns := by
+  cases l with
+  | cycle inp => exact absurd rfl (hl inp)
+  | tick d => simp only [step] at hs; split at hs <;> simp_all; subst hs; rfl
+  | pause => simp only [step] at hs; split at hs <;> simp_all; subst hs; rfl
+  | resume => simp only [step] at hs; split at hs <;> simp_all; subst hs; rfl
+  | exitBegin => simp only [step] at hs; split at hs <;> simp_all; subst hs; rfl
+  | kFinal => simp only [step] at hs; split at hs <;> simp_all; subst hs; rfl
+  | failForGood => simp only [step] at hs; split at hs <;> simp_all; subst hs; rfl
+  | exit => simp only [step] at hs; split at hs <;> simp_all; subst hs; rfl
+  | kBegin r => simp only [step] at hs; split at hs <;> (try split at hs) <;> simp_all <;> (subst hs; rfl)
+  | kSignal st => simp only [step] at hs; split at hs <;> (try split at hs) <;> simp_all <;> (subst hs; rfl)
+  | kCancel st => simp only [step] at hs; split at hs <;> (try split at hs) <;> simp_all <;> (subst hs; rfl)
+  | kAbandon st => simp only [step] at hs; split at hs <;> (try split at hs) <;> simp_all <;> (subst hs; rfl)
+
+/-- witness of F14 (corpus/C09/F14.json replays it on the code): backoff 32, timeout 64. Spawned at 64; the label stops
+    matching at 192: flagged + signalled, delay 32; it matches again at 208, inside the backoff: nothing happens, no
+    delay — and 10 minutes and another matching event later the instance still runs: flagged, never cancelled, never
+    abandoned, and still the only instance ever created. -/
+theorem rematch_witness :
+    ∃ s i, runs cfgP (St.init 0) [.tick 64, .cycle evEx0, .tick 128, .cycle { evEx0 with matching := false }, .tick 16,
+        .cycle evEx0, .tick 38400, .cycle evEx0] = some s ∧ s.run = some i ∧
+      i.reasons = [.mismatch, .signalled] ∧ i.when = some 192 ∧ i.cancelAt = none ∧ i.abandonAt = none ∧ s.spawns = 1 ∧
+      (cycle cfgP evEx0 s).2 = [] :=
+  ⟨_, _, rfl, rfl, by decide, by decide, by decide, by decide, by decide, by decide⟩
+
+/-- witness of F15 (corpus/C09/F15.json): no timeouts (polled). Flagged for a mismatch at 192, matching again at 224
+    (nothing spawned: the instance is still there); the instance ends at 384 — asked to stop, so not remembered as an
+    exit on its own — and 10 minutes later nothing runs for the matching object: one instance ever, none alive. -/
+theorem deferred_start_witness :
+    ∃ s, runs { backoff := none, timeout := none, polling := 3840 } (St.init 0)
+        [.tick 64, .cycle evEx0, .tick 128, .cycle { evEx0 with matching := false }, .tick 32, .cycle evEx0, .tick 160, .exit,
+         .tick 38400] = some s ∧ s.run = none ∧ s.forever = false ∧ s.live = 0 ∧ s.spawns = 1 ∧ s.known = true :=
+  ⟨_, rfl, by decide, by decide, by decide, by decide, by decide⟩
+
+/-- …while the next event of the object, whenever it comes, does start it (the hypotheses of `started_on_match`) -/
+example : ∃ s, runs { backoff := none, timeout := none, polling := 3840 } (St.init 0)
+        [.tick 64, .cycle evEx0, .tick 128, .cycle { evEx0 with matching := false }, .tick 32, .cycle evEx0, .tick 160, .exit,
+         .tick 38400, .cycle evEx0] = some s ∧ s.spawns = 2 ∧ s.live = 1 :=
+  ⟨_, rfl, by decide, by decide⟩
+
 /-! ## stopping never crashes the operator
 
   No theorem: "never crashes" is covered by the oracle on every simulated history (no exception out of
@@ -507,6 +566,43 @@ theorem progress (c : TCfg) (e : TEnv) (os : Nat → Outcome) (l : TLoc) (hg : c
 theorem daemon_progress (initialDelay : Option Tick) (e : TEnv) (os : Nat → Outcome) (l : DLoc) :
     dsettles initialDelay treeYielding e os 3 l = true :=
   dsettles_all initialDelay e os l
+
+/-- THE STOP FLAG IS OBEYED BY THE WRAPPER. Wherever `_timer` is when its stopper is set — in its initial delay, waiting
+    for the object to become idle, between two runs (interval / sharp grid / retry delay), in the after-run idle loop —
+    except inside the call of the function itself: it RETURNS within 4 micro-steps, without suspending once (every
+    sleep has the stopper as its wake-up event: tie `sleeps_wake_on_stop`) and WITHOUT invoking the function again
+    (`runs` unchanged; the re-check after the idle wait: tie `timer_rechecks_stop_after_idle`). For every configuration,
+    clock, idle-reset time and outcome stream. (`idleHead` is a program point of timers with `idle=` only.) -/
+theorem stopped_timer_returns (c : TCfg) (e : TEnv) (os : Nat → Outcome) (l : TLoc) (hg : c.guarded = treeGuarded)
+    (hs : e.stop = true) (hpc : l.pc ≠ .invoke) (hid : l.pc = .idleHead → c.idle.isSome = true) :
+    returnsAtOnce c e os 4 l = some l.runs := by
+  have hg' : c.guarded = true := hg
+  rcases l with ⟨pc, started, done, failed, errDelay, runs⟩
+  rcases c with ⟨initialDelay, idle, interval, sharp, guarded, yielding⟩
+  simp only at hg' hpc hid
+  subst hg'
+  cases pc <;> cases initialDelay <;> cases idle <;> cases interval <;> cases sharp <;> cases done <;>
+    simp_all [returnsAtOnce, tstep, sleepTo, sleepSuspends]
+
+/-- the same for `_daemon`: in its initial delay, at the loop head, between two retries — it returns at once and
+    does not call the function again -/
+theorem stopped_daemon_returns (initialDelay : Option Tick) (y : Bool) (e : TEnv) (os : Nat → Outcome) (l : DLoc)
+    (hs : e.stop = true) (hpc : l.pc ≠ .invoke) : dreturnsAtOnce initialDelay y e os 3 l = some l.runs := by
+  rcases l with ⟨pc, done, delay, runs⟩
+  simp only at hpc
+  cases pc <;> cases initialDelay <;> by_cases hz : delay = 0 <;>
+    simp_all [dreturnsAtOnce, dstep, dsleepTo, sleepSuspends]
+
+/-- the guards are needed: a timer woken from its idle wait by the stopper that did NOT re-check it would call the
+    function once more (pc `invoke` with the flag set: one more run) — what `stopped_timer_returns` excludes for the
+    tree; and a timer asked to stop while it waits for the object to become idle returns with 0 runs -/
+example :
+    let c : TCfg := { initialDelay := none, idle := some 192, interval := none, sharp := false, guarded := treeGuarded, yielding := treeYielding }
+    let e : TEnv := { now := 100, stop := true, idleReset := 64 }
+    let o : Outcome := { done := true, failed := false, errDelay := 0, yields := true }
+    returnsAtOnce c e (fun _ => o) 4 { pc := .idleHead, started := 0, done := false, failed := false, errDelay := 0, runs := 0 } = some 0 ∧
+    returnsAtOnce c e (fun _ => o) 4 { pc := .invoke, started := 0, done := false, failed := false, errDelay := 0, runs := 0 } = none := by
+  decide
 
 /-- the outcome that used to block the loop: non-yielding, retried with delay 0 — now harmless, and
     the hypotheses of `progress` are met by an ordinary interval timer -/
